@@ -508,6 +508,13 @@ def add_inputs(rng, spec, fnames, mounts, feat, extra_mounts=()):
                 for pos, inp in enumerate([i for i in t['inputs'] if not i.get('in_parameters')]):
                     if inp.get('access') == 'index':
                         inp['index'] = pos
+            # a declared input that the run body does not read (read only under a condition that does not hold): it must not be computed
+            if feat.get('partial_reads') and rng.random() < 0.35:
+                skippable = [i for i, inp in enumerate(t['inputs']) if inp['form'] not in ('pattern', 'pattern_all') and inp.get('access') != 'args'
+                             and not inp.get('optional')]
+                if skippable and not any(inp['form'] in ('pattern', 'pattern_all') for inp in t['inputs']):
+                    skip = rng.choice(skippable)
+                    t['reads'] = [i for i in range(len(t['inputs'])) if i != skip]
 
 
 def gen_root(rng, spec, feat=None, file_index=0):
